@@ -245,6 +245,13 @@ func (fv *FuncVC) modTargets(env *Env, m Expr) []modEntry {
 		v := env.tr(c.Args[0])
 		return []modEntry{{low: fv.e.minid(v)}}
 	}
+	if id, ok := m.(*EIdent); ok {
+		if _, bound := env.lookup(id.Name); !bound {
+			if g := fv.P.ghosts[id.Name]; g != nil {
+				return []modEntry{{heap: fv.e.ghostHeap(g), ghost: g.Name}}
+			}
+		}
+	}
 	v := env.tr(m)
 	e := fv.e
 	switch u := v.Ty.Underlying().(type) {
@@ -544,12 +551,21 @@ func (fv *FuncVC) bindLoopAliases(env *Env, li *loopInfo, phiVal func(*ssa.Phi) 
 			continue
 		}
 		// by source variable name where a phi carries that name (robust against reordering), else by position
+		src := alias
+		if k := strings.Index(alias, "="); k > 0 {
+			alias, src = alias[:k], alias[k+1:]
+		}
 		chosen := carried[i]
+		found := false
 		for _, phi := range carried {
-			if phi.Comment == alias {
+			if phi.Comment == src {
 				chosen = phi
+				found = true
 				break
 			}
+		}
+		if src != alias && !found {
+			specFail("%s: loop %d carries no variable named %s", fv.name, li.ord, src)
 		}
 		env.vars[alias] = TV{phiVal(chosen), chosen.Type()}
 	}
@@ -1258,6 +1274,9 @@ func (fv *FuncVC) sliceOp(x *ssa.Slice) {
 			e.declared["ax:str_slice"] = true
 			e.axioms = append(e.axioms, "(assert (forall ((s Str) (a Int) (b Int)) (! (=> (and (<= 0 a) (<= a b) (<= b (str_len s))) (= (str_len (str_slice s a b)) (- b a))) :pattern ((str_slice s a b)))))",
 				"(assert (forall ((s Str)) (! (= (str_slice s 0 (str_len s)) s) :pattern ((str_slice s 0 (str_len s))))))")
+			// the bytes of a substring
+			e.decl("fn:str_at", "(declare-fun str_at (Str Int) Int)")
+			e.axioms = append(e.axioms, "(assert (forall ((s Str) (a Int) (b Int) (j Int)) (! (=> (and (<= 0 a) (<= a b) (<= b (str_len s)) (<= 0 j) (< j (- b a))) (= (str_at (str_slice s a b) j) (str_at s (+ a j)))) :pattern ((str_at (str_slice s a b) j)))))")
 		}
 		fv.defReg(x, app("str_slice", v, lo, hi))
 	case *types.Pointer:
